@@ -1,3 +1,8 @@
+/-
+Helper lemmas for C12 (date arithmetic): `Rat.floor` / `roundHalfEven` facts, the month-index
+decomposition of `addMonths`, `idToMonth`, and "ordinals count days".
+`Rat.floor` of core is definitionally Mathlib's `⌊·⌋` on ℚ (notes/probes/rat_floor_sketch).
+-/
 import Bermuda.Model.DateUtils
 import Mathlib.Data.Rat.Floor
 import Mathlib.Tactic.FieldSimp
@@ -271,5 +276,312 @@ theorem addMonths_int_form (d : Date) (k : Int) (hv : d.valid) (h : 0 ≤ monthT
     have hf : (d.d : Rat) / (dim d.y d.m : Rat) = 1 := by rw [heq]; exact div_self (ne_of_gt hn)
     rw [hf, addMonthsLag_int M h]
     exact ⟨_, dim_pos _ _, Nat.le_refl _, fun _ => rfl, rfl⟩
+
+
+theorem idToMonth_true (id : Int) : idToMonth id true = ⟨yearOf id, monthOf id, 1⟩ := by
+  simp [idToMonth, yearOf, monthOf]
+
+theorem dim_twelve (y : Int) : dim y 12 = 31 := by simp [dim]
+
+theorem idToMonth_false (id : Int) : idToMonth id false = monthEndOf id := by
+  simp only [idToMonth, Bool.false_eq_true, if_false, monthEndOf]
+  unfold Date.pred
+  simp only [Nat.lt_irrefl, if_false]
+  by_cases h : ((id + 1) % 12).toNat + 1 > 1
+  · simp only [h, if_true]
+    have e1 : 1970 + (id + 1) / 12 = yearOf id := by unfold yearOf; omega
+    have e2 : ((id + 1) % 12).toNat + 1 - 1 = monthOf id := by unfold monthOf; omega
+    rw [e1, e2]
+  · simp only [h, if_false]
+    have e1 : 1970 + (id + 1) / 12 - 1 = yearOf id := by unfold yearOf; omega
+    have e2 : monthOf id = 12 := by unfold monthOf; omega
+    rw [e1, e2, dim_twelve]
+
+/-! ### ordinals count days -/
+
+theorem daysBeforeMonth_succ (y : Int) (m : Nat) (h : 1 ≤ m) :
+    daysBeforeMonth y (m + 1) = daysBeforeMonth y m + dim y m := by
+  unfold daysBeforeMonth
+  obtain ⟨n, rfl⟩ : ∃ n, m = n + 1 := ⟨m - 1, by omega⟩
+  simp only [Nat.add_sub_cancel, List.range_succ, List.foldl_append, List.foldl_cons, List.foldl_nil]
+
+theorem daysBeforeMonth_one (y : Int) : daysBeforeMonth y 1 = 0 := by
+  simp [daysBeforeMonth]
+
+theorem daysBeforeMonth_twelve (y : Int) :
+    daysBeforeMonth y 12 = if isLeap y then 335 else 334 := by
+  simp only [daysBeforeMonth, List.range_succ, List.range_zero]
+  simp only [List.nil_append, List.cons_append, List.foldl_cons, List.foldl_nil, dim]
+  split <;> rfl
+
+theorem daysBeforeYear_succ (y : Int) :
+    daysBeforeYear (y + 1) = daysBeforeYear y + (if isLeap y then 366 else 365) := by
+  unfold daysBeforeYear isLeap
+  simp only [Int.add_sub_cancel]
+  by_cases h4 : y % 4 = 0 <;> by_cases h100 : y % 100 = 0 <;> by_cases h400 : y % 400 = 0 <;>
+    simp [h4, h100, h400] <;> omega
+
+theorem ordinal_succ {d : Date} (hv : d.valid) : d.succ.ordinal = d.ordinal + 1 := by
+  obtain ⟨h1, h2, h3, h4⟩ := (valid_iff d).mp hv
+  unfold Date.succ
+  split
+  · simp only [Date.ordinal]; omega
+  · split
+    · have hd : d.d = dim d.y d.m := by omega
+      simp only [Date.ordinal, daysBeforeMonth_succ d.y d.m h1]
+      omega
+    · have hm : d.m = 12 := by omega
+      have hd : d.d = dim d.y d.m := by omega
+      rw [hm, dim_twelve] at hd
+      simp only [Date.ordinal, daysBeforeYear_succ, daysBeforeMonth_one, hm, hd, daysBeforeMonth_twelve]
+      split <;> omega
+
+theorem succ_valid {d : Date} (hv : d.valid) : d.succ.valid = true := by
+  obtain ⟨h1, h2, h3, h4⟩ := (valid_iff d).mp hv
+  unfold Date.succ
+  split
+  · rw [valid_iff]; simp only; omega
+  · split
+    · rw [valid_iff]; have := dim_pos d.y (d.m + 1); simp only; omega
+    · rw [valid_iff]; have := dim_pos (d.y + 1) 1; simp only; omega
+
+theorem iterate_succ_valid {d : Date} (hv : d.valid) (n : Nat) : (Date.succ^[n] d).valid = true := by
+  induction n generalizing d with
+  | zero => exact hv
+  | succ n ih => exact ih (succ_valid hv)
+
+theorem ordinal_iterate_succ {d : Date} (hv : d.valid) (n : Nat) :
+    (Date.succ^[n] d).ordinal = d.ordinal + n := by
+  induction n generalizing d with
+  | zero => simp
+  | succ n ih =>
+    rw [Function.iterate_succ_apply, ih (succ_valid hv), ordinal_succ hv]
+    push_cast; omega
+
+
+/-! ### `Date.ofOrdinal` inverts `Date.ordinal` on date.min .. date.max -/
+
+def yearLen (y : Int) : Int := if isLeap y then 366 else 365
+
+theorem daysBeforeYear_lower (y : Int) (h : 1 ≤ y) : 365 * (y - 1) ≤ daysBeforeYear y := by
+  unfold daysBeforeYear; simp only; omega
+
+theorem daysBeforeYear_upper (y : Int) (h : 1 ≤ y) : daysBeforeYear y ≤ 366 * (y - 1) := by
+  unfold daysBeforeYear; simp only; omega
+
+theorem findYear_spec (n : Int) : ∀ (fuel : Nat) (y : Int), daysBeforeYear y < n →
+    n ≤ daysBeforeYear (y + fuel + 1) →
+    daysBeforeYear (Date.ofOrdinal.findYear n fuel y) < n ∧
+      n ≤ daysBeforeYear (Date.ofOrdinal.findYear n fuel y + 1) := by
+  intro fuel
+  induction fuel with
+  | zero =>
+    intro y h1 h2
+    have e : y + ((0 : Nat) : Int) + 1 = y + 1 := by omega
+    rw [e] at h2
+    simpa [Date.ofOrdinal.findYear] using ⟨h1, h2⟩
+  | succ f ih =>
+    intro y h1 h2
+    unfold Date.ofOrdinal.findYear
+    split
+    · rename_i hlt
+      apply ih (y + 1) hlt
+      have : y + 1 + (f : Int) + 1 = y + ((f + 1 : Nat) : Int) + 1 := by push_cast; omega
+      rw [this]; exact h2
+    · rename_i hge
+      exact ⟨h1, by omega⟩
+
+
+/-- days from the start of month `m` to the end of the year -/
+theorem daysBeforeMonth_thirteen (y : Int) : (daysBeforeMonth y 13 : Int) = yearLen y := by
+  have h := daysBeforeMonth_succ y 12 (by omega)
+  rw [h, daysBeforeMonth_twelve, dim_twelve]
+  unfold yearLen; split <;> rfl
+
+theorem daysBeforeYear_succ' (y : Int) : daysBeforeYear (y + 1) = daysBeforeYear y + yearLen y :=
+  daysBeforeYear_succ y
+
+theorem findMonth_spec (y : Int) : ∀ (fuel m : Nat) (rest : Int), 1 ≤ m → m + fuel = 13 → 1 ≤ rest →
+    (daysBeforeMonth y m : Int) + rest ≤ daysBeforeMonth y 13 →
+    let r := Date.ofOrdinal.findMonth y fuel m rest
+    1 ≤ r.1 ∧ r.1 ≤ 12 ∧ 1 ≤ r.2 ∧ r.2 ≤ dim y r.1 ∧
+      (daysBeforeMonth y r.1 : Int) + r.2 = daysBeforeMonth y m + rest := by
+  intro fuel
+  induction fuel with
+  | zero =>
+    intro m rest h1 h2 h3 h4
+    have : m = 13 := by omega
+    subst this
+    omega
+  | succ f ih =>
+    intro m rest h1 h2 h3 h4
+    unfold Date.ofOrdinal.findMonth
+    have hs := daysBeforeMonth_succ y m h1
+    split
+    · rename_i hgt
+      have := ih (m + 1) (rest - dim y m) (by omega) (by omega) (by omega) (by rw [hs]; push_cast; omega)
+      simp only at this ⊢
+      rw [hs] at this
+      push_cast at this
+      omega
+    · rename_i hle
+      simp only
+      refine ⟨h1, by omega, h3, by omega, ?_⟩
+      trivial
+
+
+theorem ofOrdinal_spec (n : Int) (h1 : 1 ≤ n) (h2 : n ≤ 3652059) :
+    (Date.ofOrdinal n).valid = true ∧ (Date.ofOrdinal n).ordinal = n := by
+  have hy0 : 1 ≤ (n - 1) / 366 + 1 := by omega
+  have hlo := daysBeforeYear_upper ((n - 1) / 366 + 1) hy0
+  have hup := daysBeforeYear_lower ((n - 1) / 366 + 1 + ((400 : Nat) : Int) + 1) (by omega)
+  obtain ⟨hA, hB⟩ := findYear_spec n 400 ((n - 1) / 366 + 1) (by omega) (by omega)
+  unfold Date.ofOrdinal
+  simp only
+  generalize Date.ofOrdinal.findYear n 400 ((n - 1) / 366 + 1) = y at hA hB
+  rw [daysBeforeYear_succ'] at hB
+  have hm := findMonth_spec y 12 1 (n - daysBeforeYear y) (by omega) (by omega) (by omega)
+    (by rw [daysBeforeMonth_one, daysBeforeMonth_thirteen]; omega)
+  simp only at hm
+  rw [daysBeforeMonth_one] at hm
+  generalize Date.ofOrdinal.findMonth y 12 1 (n - daysBeforeYear y) = r at hm
+  obtain ⟨m, d⟩ := r
+  simp only at hm ⊢
+  obtain ⟨a, b, c, e, f⟩ := hm
+  constructor
+  · rw [valid_iff]; simp only; omega
+  · simp only [Date.ordinal]; omega
+
+theorem addDays_ordinal (d : Date) (n : Int) (h1 : 1 ≤ d.ordinal + n) (h2 : d.ordinal + n ≤ 3652059) :
+    (d.addDays n).valid = true ∧ (d.addDays n).ordinal = d.ordinal + n :=
+  ofOrdinal_spec _ h1 h2
+
+
+/-! ### before 1970: integer lags are still right, fractional lags land one month late (D8) -/
+
+theorem truncInt_intCast (z : Int) : truncInt (z : Rat) = z := by
+  unfold truncInt
+  split
+  · exact floor_intCast z
+  · have : -((z : Int) : Rat) = ((-z : Int) : Rat) := by push_cast; ring
+    rw [this, floor_intCast]; omega
+
+/-- integer final lag `M + 1`, any sign: the last day of month `M` -/
+theorem addMonthsLag_int' (M : Int) : addMonthsLag ((M : Rat) + 1) = monthEndOf M := by
+  have hcast : (M : Rat) + 1 = ((M + 1 : Int) : Rat) := by push_cast; ring
+  unfold addMonthsLag
+  simp only [hcast, floor_intCast, sub_self, truncInt_intCast, beq_self_eq_true, if_true]
+  have hm : M + 1 - 1 = M := by omega
+  simp only [hm, one_mul]
+  have hd : roundHalfEven ((dim (1970 + M / 12) ((M % 12).toNat + 1) : Nat) : Rat)
+      = ((dim (1970 + M / 12) ((M % 12).toNat + 1) : Nat) : Int) := by
+    have := roundHalfEven_intCast ((dim (1970 + M / 12) ((M % 12).toNat + 1) : Nat) : Int)
+    simpa using this
+  rw [hd]
+  have hp := dim_pos (1970 + M / 12) ((M % 12).toNat + 1)
+  have hne : (((dim (1970 + M / 12) ((M % 12).toNat + 1) : Nat) : Int) == 0) = false := by
+    simp; omega
+  simp only [hne, Int.toNat_natCast, monthEndOf, yearOf, monthOf]
+  rfl
+
+theorem pred_first_of_month (M : Int) : (Date.mk (yearOf (M + 1)) (monthOf (M + 1)) 1).pred = monthEndOf M := by
+  have := idToMonth_false M
+  simpa [idToMonth, yearOf, monthOf] using this
+
+/-- fractional final lag `M + f` with `M < 0` (a date before 1970): `int()` truncates toward zero,
+so the month index used is `M + 1` -/
+theorem addMonthsLag_frac_neg (M : Int) (f : Rat) (hM : M < 0) (h0 : 0 < f) (h1 : f < 1) :
+    addMonthsLag ((M : Rat) + f) =
+      (let day := roundHalfEven (f * (dim (yearOf (M + 1)) (monthOf (M + 1)) : Rat))
+       if day == 0 then monthEndOf M else ⟨yearOf (M + 1), monthOf (M + 1), day.toNat⟩) := by
+  have hfl : ((M : Rat) + f).floor = M := floor_int_add M f (le_of_lt h0) h1
+  have hneg : ¬ (0 : Rat) ≤ (M : Rat) + f := by
+    have : (M : Rat) ≤ -1 := by exact_mod_cast (by omega : M ≤ -1)
+    linarith
+  have hfl2 : (-((M : Rat) + f)).floor = -M - 1 := by
+    have e : -((M : Rat) + f) = ((-M - 1 : Int) : Rat) + (1 - f) := by push_cast; ring
+    rw [e]; exact floor_int_add _ _ (by linarith) (by linarith)
+  have htr : truncInt ((M : Rat) + f) = M + 1 := by
+    unfold truncInt; rw [if_neg hneg, hfl2]; omega
+  have hfr : (M : Rat) + f - ((M : Int) : Rat) = f := by ring
+  have hne : (f == 0) = false := by simp; exact ne_of_gt h0
+  rw [← pred_first_of_month M]
+  unfold addMonthsLag
+  simp only [hfl, hfr, hne, htr, yearOf, monthOf]
+  rfl
+
+/-- month ends, integer offsets, ANY year: the last day of month `monthToId d + k` -/
+theorem addMonths_monthEnd_all (d : Date) (k : Int) (he : d.isMonthEnd) :
+    addMonths d ((k : Int) : Rat) = monthEndOf (monthToId d + k) := by
+  rw [addMonths_eq_lag, finalLag_int]
+  have e1 : d.d = dim d.y d.m := by simpa [Date.isMonthEnd] using he
+  have n1 : ((dim d.y d.m : Nat) : Rat) ≠ 0 := by exact_mod_cast (Nat.ne_of_gt (dim_pos _ _))
+  rw [e1, div_self n1, addMonthsLag_int']
+
+/-- the inverse law holds for month-end targets in ANY year -/
+theorem addMonths_devLag_monthEnd (p e : Date) (he : e.valid) (hme : e.isMonthEnd) :
+    addMonths p (devLagMonths p e) = e := by
+  rw [addMonths_eq_lag, finalLag_devLag]
+  have e1 : e.d = dim e.y e.m := by simpa [Date.isMonthEnd] using hme
+  have n1 : ((dim e.y e.m : Nat) : Rat) ≠ 0 := by exact_mod_cast (Nat.ne_of_gt (dim_pos _ _))
+  rw [e1, div_self n1, addMonthsLag_int']
+  exact monthEndOf_monthToId he hme
+
+/-- … and fails for every target before 1970 that is not a month end -/
+theorem addMonths_devLag_pre1970_ne (p e : Date) (he : e.valid) (h70 : e.y < 1970)
+    (hme : e.isMonthEnd = false) : addMonths p (devLagMonths p e) ≠ e := by
+  obtain ⟨h1, h2, h3, h4⟩ := (valid_iff e).mp he
+  rw [addMonths_eq_lag, finalLag_devLag]
+  have hlt : e.d < dim e.y e.m := by
+    have : e.d ≠ dim e.y e.m := by simpa [Date.isMonthEnd] using hme
+    omega
+  have hn : (0 : Rat) < (dim e.y e.m : Rat) := by exact_mod_cast dim_pos _ _
+  have hd0 : (0 : Rat) < (e.d : Rat) := by exact_mod_cast h3
+  have hf0 : (0 : Rat) < (e.d : Rat) / (dim e.y e.m : Rat) := div_pos hd0 hn
+  have hf1 : (e.d : Rat) / (dim e.y e.m : Rat) < 1 := by rw [div_lt_one hn]; exact_mod_cast hlt
+  have hM : monthToId e < 0 := by unfold monthToId; omega
+  rw [addMonthsLag_frac_neg _ _ hM hf0 hf1]
+  simp only
+  split
+  · intro h
+    have := monthEndOf_isMonthEnd (monthToId e)
+    rw [h, hme] at this
+    exact Bool.false_ne_true this
+  · intro h
+    have := congrArg monthToId h
+    rw [monthToId_mk] at this
+    omega
+
+
+/-- D8 for integer offsets: a date that is not a month end, moved to a month before 1970, lands
+exactly one month late -/
+theorem addMonths_int_pre1970_form (d : Date) (k : Int) (hv : d.valid) (hne : d.isMonthEnd = false)
+    (h : monthToId d + k < 0) :
+    monthToId (addMonths d ((k : Int) : Rat)) = monthToId d + k + 1 := by
+  obtain ⟨h1, h2, h3, h4⟩ := (valid_iff d).mp hv
+  rw [addMonths_eq_lag, finalLag_int]
+  generalize monthToId d + k = M at *
+  have hlt : d.d < dim d.y d.m := by
+    have : d.d ≠ dim d.y d.m := by simpa [Date.isMonthEnd] using hne
+    omega
+  have hn : (0 : Rat) < (dim d.y d.m : Rat) := by exact_mod_cast dim_pos _ _
+  have hn' : (0 : Rat) < (dim (yearOf (M + 1)) (monthOf (M + 1)) : Rat) := by exact_mod_cast dim_pos _ _
+  have hd0 : (0 : Rat) < (d.d : Rat) := by exact_mod_cast h3
+  have hf0 : (0 : Rat) < (d.d : Rat) / (dim d.y d.m : Rat) := div_pos hd0 hn
+  have hf1 : (d.d : Rat) / (dim d.y d.m : Rat) < 1 := by rw [div_lt_one hn]; exact_mod_cast hlt
+  rw [addMonthsLag_frac_neg M _ h hf0 hf1]
+  have b1 := dim_bounds d.y d.m
+  have b2 := dim_bounds (yearOf (M + 1)) (monthOf (M + 1))
+  have hge : (1 : Rat) / 2 < (d.d : Rat) / (dim d.y d.m : Rat) * (dim (yearOf (M + 1)) (monthOf (M + 1)) : Rat) := by
+    have h28 : (28 : Rat) ≤ (dim (yearOf (M + 1)) (monthOf (M + 1)) : Rat) := by exact_mod_cast b2.1
+    have h31 : (dim d.y d.m : Rat) ≤ 31 := by exact_mod_cast b1.2
+    have hd1 : (1 : Rat) ≤ (d.d : Rat) := by exact_mod_cast h3
+    rw [div_mul_eq_mul_div, lt_div_iff₀ hn]
+    nlinarith
+  have r1 := roundHalfEven_ge_one hge
+  generalize roundHalfEven ((d.d : Rat) / (dim d.y d.m : Rat) * (dim (yearOf (M + 1)) (monthOf (M + 1)) : Rat)) = day at r1
+  have : (day == 0) = false := by simp; omega
+  simp only [this]
+  exact monthToId_mk _ _
 
 end Bermuda
